@@ -50,6 +50,9 @@ type Socket interface {
 	// errno the "system call" fails with (fault injection); an empty result with errno 0
 	// means EAGAIN.
 	TryRecv(max int, batch bool) (d []Datagram, errno syscall.Errno)
+	// Pending reports how many datagrams are queued without consuming any (recvfrom with
+	// MSG_PEEK|MSG_DONTWAIT); errno as for TryRecv, or EBADF once closed.
+	Pending() (n int, errno syscall.Errno)
 	// WaitReadable blocks until a datagram is queued, the read deadline passes
 	// (os.ErrDeadlineExceeded) or the socket is closed (net.ErrClosed).
 	WaitReadable() error
